@@ -82,6 +82,9 @@ def run_hx(cmd, env=None, timeout=3600, restartable=True, max_restarts=40):
     """Runs one hx process; returns dict(lines=[...], crashes=[{case,file,key,stderr}], rc, hung)."""
     e = dict(os.environ)
     e.update(ASAN_ENV)
+    td = os.path.join(OUT, 'work', 'tmpfiles')
+    os.makedirs(td, exist_ok=True)
+    e['HX_TMPDIR'] = td
     if env:
         e.update(env)
     lines, crashes = [], []
